@@ -11,7 +11,7 @@
    every shard layout (the configuration c is universally quantified). *)
 From Coq Require Import List NArith Bool.
 From K.Model Require Import C06.
-From K.Proof Require C06.
+From K.Proof Require C06 C06_ok C06_inv.
 Import ListNotations.
 Local Open Scope N_scope.
 
@@ -154,6 +154,21 @@ Theorem C06_recovered_sizes : forall c f s' x e, recover c f = Some s' -> mem s'
     else exists sb, d_sizef d = Some sb /\ undec sb = Some (e_size e).
 Proof. exact Proof.C06.recovered_sizes. Qed.
 Print Assumptions C06_recovered_sizes.
+
+(* 7. The model's programs are exact: from every reachable state every mutating call an operation
+   lists succeeds when executed in order (a failed call never appears in a recorded trace), and the
+   operation's disk effect IS the execution of its call list — so "crash after k calls" is well defined
+   ([crash] = [exec] of the first k calls). This is the proved half of the trace correspondence. *)
+Theorem C06_calls_succeed : forall c s o, reach c s -> wf_op c s o = true ->
+  all_ok (calls_of (step c s o)) (disk s) = true /\
+  disk (st_of (step c s o)) = exec (calls_of (step c s o)) (disk s).
+Proof. exact (fun c s o R W => conj (Proof.C06_ok.calls_succeed_reach c s o R W) (Proof.C06_inv.step_disk c s o)). Qed.
+Print Assumptions C06_calls_succeed.
+
+Theorem C06_trace_succeeds : forall c ops s, reach c s -> wf_all c s ops = true ->
+  all_ok (trace (run c s ops)) (disk s) = true.
+Proof. exact Proof.C06_ok.trace_succeeds. Qed.
+Print Assumptions C06_trace_succeeds.
 
 (* The recovery of the pinned commit (before fixes/C06_*.patch), [recover_old], violates clauses 1 and 5. *)
 Theorem C06_empty_size_refuted :
